@@ -607,4 +607,69 @@ theorem sysInv_run (sts : List Step) (y : Sys) (h : SysInv y) : SysInv (y.run st
   | nil => exact h
   | cons st sts ih => exact ih (y.step st) (sysInv_step y st h)
 
+/-! ### the manager -/
+
+theorem passesDelta_of_le (s : State) (maxDelta : Nat) (u : Update) (h : u.reg.inc ≤ maxDelta) :
+    passesDelta s maxDelta u = true := by
+  unfold passesDelta
+  cases s.regs u.node <;> simp <;> omega
+
+theorem handleSync_maxDelta (g : Mgr) (sender : Nat) (b : List Update) (t : Nat) :
+    (g.handleSync sender b t).maxDelta = g.maxDelta := rfl
+
+/-- `handle_sync` on a member other than the sender, when no incoming state exceeds the
+    configured incarnation jump: the plain CRDT merge of the payload -/
+theorem handleSync_regs (g : Mgr) (sender : Nat) (b : List Update) (t : Nat) (m : Nat) (hm : m ≠ sender)
+    (hpass : ∀ u ∈ b, u.reg.inc ≤ g.maxDelta) :
+    (g.handleSync sender b t).st.regs m = joinList (g.st.regs m) (forMember m b) := by
+  have hfil : b.filter (passesDelta (syncTime g.st t) g.maxDelta) = b :=
+    List.filter_eq_self.mpr (fun u hu => passesDelta_of_le _ _ u (hpass u hu))
+  unfold Mgr.handleSync
+  simp only [hfil]
+  rw [merge_apply, merge_apply]
+  have : ¬ sender = m := fun e => hm e.symm
+  simp [forMember, this, joinList, syncTime]
+
+theorem handleAlive_st (g : Mgr) (m i : Nat) :
+    (g.handleAlive m i).st = g.st ∨ (g.handleAlive m i).st = (refute g.st m i).1 := by
+  unfold Mgr.handleAlive
+  simp only []
+  repeat' split
+  all_goals first | (left; rfl) | (right; rfl)
+
+/-- a list of messages consisting of Sync messages only, none of them sent by `m` -/
+def SyncsNotFrom (m : Nat) : List Msg → Prop
+  | [] => True
+  | .sync s _ _ :: ms => s ≠ m ∧ SyncsNotFrom m ms
+  | _ :: _ => False
+
+theorem run_maxDelta_syncs (g : Mgr) (msgs : List Msg) (m : Nat) (h : SyncsNotFrom m msgs) :
+    (g.run msgs).maxDelta = g.maxDelta := by
+  induction msgs generalizing g with
+  | nil => rfl
+  | cons x xs ih =>
+    cases x with
+    | sync s b t => exact ih (g.handleSync s b t) h.2
+    | suspect _ _ => exact absurd h (by simp [SyncsNotFrom])
+    | alive _ _ => exact absurd h (by simp [SyncsNotFrom])
+    | addPeer _ => exact absurd h (by simp [SyncsNotFrom])
+
+theorem runSyncs_regs (g : Mgr) (msgs : List Msg) (m : Nat) (h : SyncsNotFrom m msgs)
+    (hpass : ∀ u ∈ syncPayload msgs, u.reg.inc ≤ g.maxDelta) :
+    (g.run msgs).st.regs m = joinList (g.st.regs m) (forMember m (syncPayload msgs)) := by
+  induction msgs generalizing g with
+  | nil => rfl
+  | cons x xs ih =>
+    cases x with
+    | sync s b t =>
+      have hrun : g.run (Msg.sync s b t :: xs) = (g.handleSync s b t).run xs := rfl
+      have hb : ∀ u ∈ b, u.reg.inc ≤ g.maxDelta := fun u hu => hpass u (by simp [syncPayload, hu])
+      have hxs : ∀ u ∈ syncPayload xs, u.reg.inc ≤ (g.handleSync s b t).maxDelta :=
+        fun u hu => hpass u (by simp [syncPayload, hu])
+      rw [hrun, ih (g.handleSync s b t) h.2 hxs, handleSync_regs g s b t m (fun e => h.1 e.symm) hb]
+      simp only [syncPayload, forMember_append, joinList_append]
+    | suspect _ _ => exact absurd h (by simp [SyncsNotFrom])
+    | alive _ _ => exact absurd h (by simp [SyncsNotFrom])
+    | addPeer _ => exact absurd h (by simp [SyncsNotFrom])
+
 end Neumann.Gossip
